@@ -3,6 +3,8 @@ From V.lib Require Import Bits.
 From V.model Require Import Uop Alu Cpu CpuTables.
 From V.spec Require Import Sm83Spec IntSpec.
 From V.proofs Require Import AluProofs CpuLemmas CpuProofs CpuIntProofs.
+From V.model Require System.
+From V.proofs Require SysProofs.
 
 (* HALT itself: idles when the master enable is set or nothing is pending, otherwise arms the halt bug. *)
 Theorem C05_halt_instruction :
@@ -68,6 +70,21 @@ Theorem C05_halt_bug :
   forall a, xhaltbug a = true -> xpc (after_fetch a) = xpc a /\ xhaltbug (after_fetch a) = false.
 Proof. exact halt_bug_fetch. Qed.
 Print Assumptions C05_halt_bug.
+
+(* A key press or release (the display's callback: joypad latch + CPU.OnInput) does not end HALT: it changes nothing of
+   the CPU but the STOP flag, and nothing of the hardware but the joypad latch - in particular it requests no
+   interrupt, so C05_halt_idles keeps applying. *)
+Theorem C05_key_does_not_wake : forall cs k a,
+  let c := fst cs in let c' := fst (V.model.System.sys_key cs k a) in
+  halted c' = halted c /\ haltbug c' = haltbug c /\ eip c' = eip c /\ pc c' = pc c /\ sp c' = sp c /\
+  ra c' = ra c /\ rf c' = rf c /\ cur c' = cur c /\ cyc c' = cyc c /\
+  (stopped c' = false \/ stopped c' = stopped c).
+Proof. exact V.proofs.SysProofs.key_keeps_cpu. Qed.
+Print Assumptions C05_key_does_not_wake.
+Theorem C05_key_requests_nothing : forall cs k a,
+  V.model.System.s_ints (snd (V.model.System.sys_key cs k a)) = V.model.System.s_ints (snd cs).
+Proof. intros cs k a. exact (proj1 (V.proofs.SysProofs.key_keeps_hw cs k a)). Qed.
+Print Assumptions C05_key_requests_nothing.
 
 (* non-vacuity: a halted power-on CPU on the test bus with nothing enabled idles (here 25 cycles); with VBlank enabled and
    requested and the master enable set it is at the vector after six cycles *)
